@@ -156,6 +156,16 @@ class Instance:
         new_instance = replace(self, **changes)
         if is_dataclass(self.origin_type):
             new_instance.__owner_builder = self.__self_builder
+        elif (
+            "type" in changes
+            and isinstance(self.origin_type, type)
+            and issubclass(self.origin_type, Collection)
+            and not issubclass(self.origin_type, (tuple, str))
+            and not is_typed_dict(self.origin_type)
+        ):
+            # like the (un)packers, field options apply to the field's own
+            # type, not to the items of a collection
+            new_instance.__dict__["metadata"] = {}
         return new_instance
 
     def __post_init__(self) -> None:
